@@ -64,9 +64,12 @@
    nothing but its identity - keyed state, cursors, barriers, batches, queued
    output all start over from the checkpoint - so the survivors flavour of
    Restart is the same Reset, with these differences:
-     * a job that was not killed survives: its checkpoint id counter goes on,
-       the pending checkpoint is discarded, snapshot writes in flight still land
-       (Publish after the Restart), and it deploys from the checkpoint it holds;
+     * a job that was not killed survives: its checkpoint id counter goes on and
+       it deploys from the checkpoint it holds; the previous assembly's pending
+       checkpoint AND its complete checkpoints whose snapshot is still being
+       written are given up (snapshots.Store.DiscardPendingCheckpoint): a
+       checkpoint that appeared after the re-assembly would not be an ancestor of
+       the new assembly's state, yet be what the next recovery loads;
      * HandleEventBatch calls of the old assembly that are still in flight to an
        operator that survives (slot, not yet inside) become LATE messages: they
        may be delivered to the redeployed survivor at any later moment
@@ -203,8 +206,7 @@ Reset(n, curs, sts) ==
   /\ inside' = [r \in Workers |-> [o \in Workers |-> FALSE]]
   /\ pend' = [o \in Workers |-> <<>>] /\ st' = sts /\ bar' = [o \in Workers |-> {}]
   /\ opack' = [o \in Workers |-> None] /\ startq' = [r \in Workers |-> 0] /\ srack' = [r \in Workers |-> None]
-  /\ pending' = NoCkpt
-  /\ pubs' = IF Survive /\ 0 \notin dead THEN pubs ELSE {}     \* a surviving job's writes in flight still land
+  /\ pending' = NoCkpt /\ pubs' = {}     \* (a surviving job gives up the previous assembly's checkpoints: pending and being written)
 
 \* the history is only kept when generating behaviours (values that never reach the VIEW stay
 \* un-normalised and TLC cannot spill them to its disk queue)
